@@ -72,6 +72,12 @@ impl<T> LimitedVec<T> {
         self.vec.drain(range)
     }
 
+    /// Verification hook: `(size_of::<T>(), min_capacity())`.
+    #[cfg(feature = "_verif_hooks")]
+    pub const fn verif_layout() -> (usize, usize) {
+        (size_of::<T>(), Self::min_capacity())
+    }
+
     const fn min_capacity() -> usize {
         let items = 128 / size_of::<T>();
         if items >= 8 { items } else { 8 }
